@@ -81,3 +81,125 @@ def unmapped_positions(c, rng, k):
         if len(out) >= k:
             break
     return out
+
+
+# ---------------------------------------------------------------- correspondence with the Coq proxy model
+import hashlib
+
+
+def _md5(s):
+    if isinstance(s, str):
+        s = s.encode("utf-8", "surrogateescape")
+    return hashlib.md5(s).hexdigest()
+
+
+def _locs(ls):
+    return "/".join("%s:%d:%d:%d:%d" % (hx(l.get("uri", "")), l["sl"], l["sc"], l["el"], l["ec"]) for l in ls)
+
+
+def encode_event(e):
+    """the event(s) of the model's line protocol for one harness event"""
+    op = e["op"]
+    if op == "open":
+        return ["O,%s,%s,%d,%s" % (hx(e["uri"]), hx(e.get("lang", "goht")), e["version"], hx(e.get("text", "")))]
+    if op == "change":
+        if "during" in e:
+            d = encode_event(e["during"])
+            if e.get("at", 1) == 1:
+                return ["C1,%s,%d,%s" % (hx(e["uri"]), e["version"], hx(e.get("text", "")))] + d + ["C2,%s,%d" % (hx(e["uri"]), e["version"])]
+            return ["C,%s,%d,%s" % (hx(e["uri"]), e["version"], hx(e.get("text", "")))] + d
+        return ["C,%s,%d,%s" % (hx(e["uri"]), e["version"], hx(e.get("text", "")))]
+    if op == "close":
+        return ["X," + hx(e["uri"])]
+    if op == "save":
+        return ["S,%s,%s" % (hx(e["uri"]), hx(e["text"]) if e.get("text") is not None else "-")]
+    if op == "req":
+        ans = "-" if e.get("nil_answer") else _locs(e.get("answer", []))
+        return ["R,%s,%s,%d,%d,%s" % (e["method"], hx(e["uri"]), e["line"], e["char"], ans)]
+    if op == "diag":
+        return ["D,%s,%s" % (hx(e["uri"]), "/".join("%d:%d:%d:%d:%s" % (d["sl"], d["sc"], d["el"], d["ec"], hx(d["msg"])) for d in e["diags"]))]
+    if op == "msg":
+        return ["M," + hx(e["text"])]
+    raise ValueError(op)
+
+
+def _item(i, method=None):
+    k = i["k"]
+    if k == "ds":
+        m = i["m"]
+        if m == "didOpen":
+            return "ds.didOpen.%s.%s.%d.%s" % (hx(i["uri"]), hx(i.get("lang", "")), i.get("ver", 0), _md5(i.get("text", "")))
+        if m == "didChange":
+            return "ds.didChange.%s.%d.%s" % (hx(i["uri"]), i.get("ver", 0), _md5(i.get("text", "")))
+        if m == "didClose":
+            return "ds.didClose." + hx(i["uri"])
+        if m == "didSave":
+            return "ds.didSave.%s.%s" % (hx(i["uri"]), "-" if i.get("nil") else _md5(i.get("text", "")))
+        return "ds.%s.%s.%d:%d" % (m, hx(i["uri"]), i.get("line", 0), i.get("char", 0))
+    if k == "cl":
+        if i["m"] == "publishDiagnostics":
+            return "cl.diag.%s.%s" % (hx(i["uri"]), "/".join("%d:%d:%d:%d:%s:%s" % (d["sl"], d["sc"], d["el"], d["ec"], "g" if d.get("src") == "goht" else "c", _md5(d["msg"]))
+                                                              for d in i.get("diags") or []))
+        return "cl.msg." + _md5(i.get("text", ""))
+    # reply
+    if i.get("panic"):
+        return "r.panic."
+    r = "r.err." if i.get("err") else "r.ok."
+    locs = [l for l in (i.get("locs") or []) if not l.get("uri", "").startswith("rename:")]
+    if method == "codeAction" and not i.get("err") and not i.get("nil"):
+        return r + _locs(locs) + "#" + "/".join("%d:%d:%d:%d" % (d["sl"], d["sc"], d["el"], d["ec"]) for d in i.get("diags") or [])
+    if method in ("signatureHelp", "moniker"):
+        return r
+    return r + _locs(locs)
+
+
+def canon_impl(h, tr):
+    """the real proxy's trace in the model's canonical form (one string per model event)"""
+    out = []
+    for e, items in zip(h, tr):
+        method = e.get("method")
+        if e["op"] == "change" and "during" in e:
+            main = [i for i in items if not (i["k"] == "ret" and i.get("m") == "during")]
+            idx = next((n for n, i in enumerate(items) if i["k"] == "ret" and i.get("m") == "during"), None)
+            during_ret = items[idx] if idx is not None else None
+            if during_ret is None:
+                out.append("+".join(_item(i) for i in items))
+                continue
+            # items recorded before the nested event started belong to part 1; the nested event's own items follow
+            at = e.get("at", 1)
+            before = items[:at]                       # the first [at] outgoing calls of the change
+            nested = items[at:idx]                    # what the nested delivery produced
+            after = items[idx + 1:]
+            dret = dict(during_ret)
+            dret.pop("m", None)
+            if at == 1:
+                out.append("+".join([_item(i) for i in before] + ["r.ok."]))
+                out.append("+".join([_item(i) for i in nested] + [_item(dret)]))
+                out.append("+".join(_item(i) for i in after))
+            else:
+                out.append("+".join([_item(i) for i in before] + [_item(after[-1])]))
+                out.append("+".join([_item(i) for i in nested] + [_item(dret)]))
+            continue
+        out.append("+".join(_item(i, method) for i in items))
+    return "|".join(out)
+
+
+def model_traces(histories):
+    lines = ["proxy " + ";".join(x for e in h for x in encode_event(e)) for h in histories]
+    return common.run_lines_parallel(common.DRIVER, lines)
+
+
+def correspondence(chk, histories, traces, layer="L-PROXY"):
+    n = 0
+    for h, tr, m in zip(histories, traces, model_traces(histories)):
+        c = canon_impl(h, tr)
+        if c != m:
+            n += 1
+            if n <= 3:
+                ci, cm = c.split("|"), m.split("|")
+                k = next((i for i, (a, b) in enumerate(zip(ci, cm)) if a != b), min(len(ci), len(cm)))
+                chk.broke("correspondence", layer, "the proxy model and the real proxy disagree at event %d" % k, history=h,
+                          impl=ci[k:k + 1], model=cm[k:k + 1])
+        else:
+            chk.traces += 1
+    return n
